@@ -6,6 +6,7 @@ pub mod c14;
 pub mod c15;
 pub mod c16;
 pub mod c20;
+pub mod c20fd;
 pub mod common;
 
 use crate::env::{Env, HarnessError};
